@@ -177,8 +177,13 @@ func readAll(f *file, data []byte, mode int) (res readResult) {
 				break
 			}
 			g := got{data: append([]byte(nil), d...), ci: ci, opts: o, withOpts: m >= 2}
-			if len(ci.AncillaryData) > 0 {
+			if (m == 1 || m == 3) && len(ci.AncillaryData) > 0 {
+				// only the zero-copy calls document that data and ancillary data are re-used;
+				// what a copying call returned is kept as it is and compared after all reads
 				g.ci.AncillaryData = append([]interface{}(nil), ci.AncillaryData...)
+			}
+			if m == 0 || m == 2 {
+				g.data = d
 			}
 			res.pkts = append(res.pkts, g)
 		}
@@ -207,7 +212,11 @@ func readAll(f *file, data []byte, mode int) (res readResult) {
 			res.err = err
 			break
 		}
-		res.pkts = append(res.pkts, got{data: append([]byte(nil), d...), ci: ci})
+		if mode%2 == 0 || (mode == 4 && i%2 == 0) {
+			res.pkts = append(res.pkts, got{data: d, ci: ci}) // a copying read: kept without a defensive copy
+		} else {
+			res.pkts = append(res.pkts, got{data: append([]byte(nil), d...), ci: ci})
+		}
 	}
 	return
 }
